@@ -32,8 +32,11 @@ type layer struct {
 	kind  string // mem cache pfx gas trace
 	pre   []byte
 	store stypes.KVStore
-	// oracle state for cache layers: the overlay (nil value = delete)
+	// oracle state for cache layers: the overlay (nil value = delete) and the values the wrapper
+	// has read and memoised since its last Write (a wrapper is a snapshot of what it has read)
 	overlay map[string][]byte
+	clean   map[string][]byte
+	cleanOK map[string]bool
 }
 
 type Fam struct {
@@ -48,6 +51,8 @@ type Fam struct {
 	opsInProg int
 	extra   map[string]int
 	poisoned bool
+	script   []string // scripted follow-up operations (multi-step probes)
+	staleOK  bool // a lower layer was written directly: wrappers above may legitimately be stale
 }
 
 func New(profile string) *Fam {
@@ -69,6 +74,8 @@ func (f *Fam) reset(limit uint64) {
 	f.nextIt = 0
 	f.opsInProg = 0
 	f.poisoned = false
+	f.staleOK = false
+	f.script = nil
 	var base stypes.KVStore
 	if f.Profile == "iavl" {
 		db := dbm.NewMemDB()
@@ -182,6 +189,21 @@ func (f *Fam) Gen(r *rand.Rand, i int) string {
 		}
 		return fmt.Sprintf("new %d", lim)
 	}
+	if len(f.script) > 0 {
+		op := f.script[0]
+		f.script = f.script[1:]
+		return op
+	}
+	// probe: a wrapper that has only been read is written, a sibling then changes the shared
+	// parent, and the wrapper is read again: it must be clean after Write
+	if f.top().kind == "cache" && len(f.layers) > 1 && len(f.iters) == 0 && r.Intn(40) == 0 {
+		k := hx(genKey(r))
+		f.script = []string{"write", "lset 1 " + k + " " + hx(genVal(r)), "get " + k, "has " + k}
+		if r.Intn(2) == 0 {
+			f.script[1] = "ldel 1 " + k
+		}
+		return "get " + k
+	}
 	gb := func() string { // bound
 		if r.Intn(3) == 0 {
 			return "nil"
@@ -223,9 +245,18 @@ func (f *Fam) Gen(r *rand.Rand, i int) string {
 			return "get " + hx(genKey(r))
 		case x < 62:
 			return "has " + hx(genKey(r))
-		case x < 68:
+		case x < 67:
 			if f.top().kind == "cache" && len(f.iters) == 0 {
 				return "write"
+			}
+		case x < 68:
+			// a sibling changes a shared parent: set/delete on a layer below the top
+			if len(f.layers) > 1 && len(f.iters) == 0 {
+				n := 1 + r.Intn(len(f.layers)-1)
+				if r.Intn(3) == 0 {
+					return fmt.Sprintf("ldel %d %s", n, hx(genKey(r)))
+				}
+				return fmt.Sprintf("lset %d %s %s", n, hx(genKey(r)), hx(genVal(r)))
 			}
 		case x < 71:
 			return "dump"
@@ -300,6 +331,36 @@ func (f *Fam) view(i int) map[string][]byte {
 		return m
 	default:
 		return f.view(i - 1)
+	}
+}
+
+// expGet is what Get(key) on layer i must return, including the memoisation of clean reads.
+func (f *Fam) expGet(i int, key []byte) ([]byte, bool) {
+	l := f.layers[i]
+	switch l.kind {
+	case "mem":
+		v := l.store.Get(key)
+		return v, v != nil
+	case "cache":
+		if v, ok := l.overlay[string(key)]; ok {
+			return v, v != nil
+		}
+		if l.cleanOK[string(key)] {
+			v := l.clean[string(key)]
+			return v, v != nil
+		}
+		v, ok := f.expGet(i-1, key)
+		l.cleanOK[string(key)] = true
+		if ok {
+			l.clean[string(key)] = v
+		} else {
+			l.clean[string(key)] = nil
+		}
+		return v, ok
+	case "pfx":
+		return f.expGet(i-1, append(append([]byte{}, l.pre...), key...))
+	default:
+		return f.expGet(i-1, key)
 	}
 }
 
@@ -428,8 +489,11 @@ func (f *Fam) Exec(op string) (string, []common.Failure) {
 		case "cache":
 			l.store = cachekv.NewStore(p.store)
 			l.overlay = map[string][]byte{}
+			l.clean, l.cleanOK = map[string][]byte{}, map[string]bool{}
 		case "pfx":
-			l.pre = unhx(w[2])
+			// spare capacity behind the prefix, as in types.Subspace (append-style key building must not alias)
+			raw := unhx(w[2])
+			l.pre = append(make([]byte, 0, len(raw)+16), raw...)
 			l.store = prefix.NewStore(p.store, l.pre)
 		case "gas":
 			l.store = gaskv.NewStore(p.store, f.meter, cfg)
@@ -460,7 +524,7 @@ func (f *Fam) Exec(op string) (string, []common.Failure) {
 	switch w[0] {
 	case "get", "has":
 		k := unhx(w[1])
-		want, present := f.view(ti)[string(k)]
+		want, present := f.expGet(ti, k)
 		base0 := f.view(0)
 		obs = f.guarded(func() string {
 			if w[0] == "get" {
@@ -547,7 +611,7 @@ func (f *Fam) Exec(op string) (string, []common.Failure) {
 			} else {
 				delete(exp, string(k))
 			}
-			if !sameMap(exp, f.view(ti)) {
+			if !f.staleOK && !sameMap(exp, f.view(ti)) {
 				fail("write-refines-overlay", "C15:"+w[0], op+": the top view is not the previous view with this update")
 			}
 			if f.layers[ti].kind == "pfx" || f.hasKindBelowTop("pfx") {
@@ -596,6 +660,7 @@ func (f *Fam) Exec(op string) (string, []common.Failure) {
 			return obs, fails
 		}
 		l.overlay = map[string][]byte{}
+		l.clean, l.cleanOK = map[string][]byte{}, map[string]bool{}
 		// propagate into the oracle overlay of the next cache below (through prefixes)
 		pre := []byte{}
 		for j := ti - 1; j >= 0; j-- {
@@ -619,10 +684,10 @@ func (f *Fam) Exec(op string) (string, []common.Failure) {
 				break
 			}
 		}
-		if !sameMap(before, f.view(ti)) {
+		if !f.staleOK && !sameMap(before, f.view(ti)) {
 			fail("write-view", "C15:write:view-changed", "Write changed the wrapper's own view")
 		}
-		if !sameMap(before, f.view(ti-1)) && f.layers[ti-1].kind != "pfx" {
+		if !f.staleOK && !sameMap(before, f.view(ti-1)) && f.layers[ti-1].kind != "pfx" {
 			fail("write-refines", "C15:write:parent-not-view", "after Write the parent does not hold the overlaid view")
 		}
 	case "iterall":
@@ -655,11 +720,50 @@ func (f *Fam) Exec(op string) (string, []common.Failure) {
 			}
 			return "[" + strings.Join(parts, ",") + "]"
 		})
-		if !strings.HasPrefix(obs, "panic") && !strings.HasPrefix(obs, want+" g=") {
-			fail("iter-refines-overlay", "C15:iterator", fmt.Sprintf("%s yielded %q, the sorted overlay range is %q", op, obs, want))
+		if !f.staleOK && !strings.HasPrefix(obs, "panic") && !strings.HasPrefix(obs, want+" g=") {
+			isig := "C15:iterator"
+		if f.hasKindBelowTop("pfx") {
+			isig = "C16:iterator-through-prefix"
+		}
+		fail("iter-refines-overlay", isig, fmt.Sprintf("%s yielded %q, the sorted overlay range is %q", op, obs, want))
 		}
 		if !sameMap(base0, f.view(0)) {
 			fail("parent-frame", "C15:read-writes-parent", op+" changed the base store")
+		}
+	case "lset", "ldel":
+		// write below the top; wrappers above may now hold stale clean reads (by design of cachekv:
+		// a wrapper is a snapshot of what it has read), so the overlay oracle is off for this program
+		n, _ := strconv.Atoi(w[1])
+		i := len(f.layers) - 1 - n
+		if i < 0 {
+			i = 0
+		}
+		f.staleOK = true
+		st := f.layers[i].store
+		obs = f.guarded(func() string {
+			if w[0] == "lset" {
+				st.Set(unhx(w[2]), unhx(w[3]))
+			} else {
+				st.Delete(unhx(w[2]))
+			}
+			return "ok"
+		})
+		// keep the oracle overlays of cache layers at/below i in step
+		if !strings.HasPrefix(obs, "panic") {
+			full := append([]byte{}, unhx(w[2])...)
+			j := i
+			for ; j > 0 && f.layers[j].kind != "cache"; j-- {
+				if f.layers[j].kind == "pfx" {
+					full = append(append([]byte{}, f.layers[j].pre...), full...)
+				}
+			}
+			if f.layers[j].kind == "cache" {
+				if w[0] == "lset" {
+					f.layers[j].overlay[string(full)] = unhx(w[3])
+				} else {
+					f.layers[j].overlay[string(full)] = nil
+				}
+			}
 		}
 	case "burn":
 		n, _ := strconv.ParseUint(w[1], 10, 64)
